@@ -1,9 +1,9 @@
 SPECIFICATION Spec
 CONSTANTS
-  MaxUnits = 3
-  MaxPrefixes = 2
+  MaxUnits = 2
+  MaxPrefixes = 1
   MaxLen = 4
-  KindMode = "parity"
-  MaxAlias = 0
+  KindMode = "all"
+  MaxAlias = 1
 INVARIANTS Theorems Emit
 CHECK_DEADLOCK FALSE
